@@ -28,6 +28,12 @@ FORESTS = {
                ("ResilientStorage", "Server-ResilientStorage", "Server", ["x86_64"]),
                ("Addon", "Server-Addon", "Server", ["x86_64", "s390x"]),
                ("ServerHighAvailability", "Server-HighAvailability", None, ["x86_64"])],          # childless, as the property's quantifier requires
+    # ids that concatenate to other ids: 'ServerHA' next to Server/HA, 'HAExtras' next to HA/Extras - every UID is still unique
+    "concat": [("Server", "Server", None, ["x86_64", "s390x"]),
+               ("HA", "Server-HA", "Server", ["x86_64", "s390x"]),
+               ("Extras", "Server-HA-Extras", "Server-HA", ["x86_64"]),
+               ("HAExtras", "Server-HAExtras", "Server", ["s390x"]),
+               ("ServerHA", "ServerHA", None, ["x86_64"])],
 }
 TYPE_OF = {"optional": "optional", "HA": "addon", "RT": "variant"}
 
@@ -230,7 +236,7 @@ def jobs(tier, seed):
         if forest != "empty":
             out.append({"harness": "reload_consistent", "params": {"forest": forest}})
     type_sets = [None, ["variant"], ["optional", "addon"], ["addon"], ["variant", "optional", "addon", "layered-product"], ["self"], ["self", "addon"]]
-    for forest in ("chain", "wide", "seven", "dashed"):
+    for forest in ("chain", "wide", "seven", "dashed", "concat"):
         starts = [None] + [u for i, u, p, a in FORESTS[forest] if any(pp == u for _, _, pp, _ in FORESTS[forest])]
         for si, start in enumerate(starts):
             for ti, ts in enumerate(type_sets):
